@@ -123,9 +123,16 @@ Definition obs_matches (c : fault_case) (m : observation tk_req (list string)) (
    end &&
    leqb N.eqb (not_faulty (map p_id (o_invoked m))) (not_faulty (fo_handled o)))%bool.
 
+(* a cut or closed connection is down by the time the follow-up request starts, whether or
+   not the faulted request's call already failed on it (a fault that strikes after the
+   plugin's reply went through leaves the first request untouched) *)
 Definition corr_fault (c : fault_case) : bool :=
-  let s := [ARequest (1%N, fc_ev c) (fault_handler c (fc_call c));
-            ARequest (2%N, fc_ev c) (fault_handler c (fc_after_call c))] in
+  let s := ARequest (1%N, fc_ev c) (fault_handler c (fc_call c)) ::
+           match fc_fault c with
+           | FTransport _ => [ADisconnect (fc_faulty c)]
+           | _ => []
+           end ++
+           [ARequest (2%N, fc_ev c) (fault_handler c (fc_after_call c))] in
   match snd (tk_run model_T (fault_plugins c) s) with
   | [m1; m2] => (obs_matches c m1 (fc_obs c) && obs_matches c m2 (fc_obs2 c))%bool
   | _ => false
